@@ -47,6 +47,21 @@ func init() {
 			s.Stake(6, 1, "2e18")
 			s.expect(OK(s.CallC(5, bal, word(s.R.KR.Addr(6)), "0", cgas)), "contract reads a balance changed by staking in this block")
 			s.End()
+			s.Begin(allHdr)
+			// slots written several times inside one transaction (metering by the value at the start of the transaction, refunds)
+			ev, rs := s.Deploy(4, prog("restore", nil), 0, "0", cgas)
+			s.expect(OK(ev), "deploy restore")
+			ev, tc := s.Deploy(5, prog("triple_counter", nil), 4, "0", cgas)
+			s.expect(OK(ev), "deploy triple_counter")
+			s.expect(OK(s.CallC(6, rs, nil, "0", cgas)), "restore, first call (slots start at zero)")
+			s.expect(OK(s.CallC(6, rs, nil, "0", cgas)), "restore, second call in the same block (slots start non-zero)")
+			s.expect(OK(s.CallC(6, tc, nil, "0", cgas)), "triple_counter")
+			s.End()
+			s.Begin(allHdr)
+			s.expect(OK(s.CallC(4, rs, nil, "0", cgas)), "restore in a later block")
+			s.expect(OK(s.CallC(4, tc, nil, "0", cgas)), "triple_counter in a later block")
+			s.expect(!OK(s.CallC(4, tc, nil, "0", 24000)), "triple_counter with too little gas")
+			s.End()
 			s.Blocks(1, allHdr)
 		}},
 		Directed{"evm_value", []string{"C17", "C02", "C16"}, fam(0), func(s *Script) {
